@@ -248,3 +248,61 @@ func VerifC16DefineShapes() {
 	verifAssert("shapes-edge-present-iff-accepted", verifHasEdge(d, ids[fi], ids[ti]) == (adj[fi][ti] || err == nil))
 	verifReach("end")
 }
+
+// VerifC16DefineBranching: cycle detection below a branching target. Six concrete resources: a root with two
+// children a and b, and every set of edges from a and b (and between them) to three leaves. For every ordered pair
+// an edge is accepted exactly when it closes no cycle — in particular an edge from a node reachable only through
+// the second child back to the root is refused whatever the first child's fan-out is (a descendant walk that
+// loses part of a level while it expands another part is caught here).
+func VerifC16DefineBranching() {
+	ctx := context.Background()
+	const n = 6
+	d, _ := verifWriter()
+	ids := make([]ID, n)
+	for i := range ids {
+		ids[i] = ID{Type: "t", Key: string(rune('a' + i))}
+		verifAssume(d.DefineResource(ctx, ids[i]) == nil)
+	}
+	var adj [n][n]bool
+	put := func(i, j int) {
+		adj[i][j] = true
+		verifAssume(d.relationshipTable.NewCreate().Entry(&Relationship{From: ids[i], Type: verifParent, To: ids[j]}).Exec(ctx, d.tx) == nil)
+	}
+	put(0, 1)
+	put(0, 2)
+	if verifBool("edge") {
+		put(1, 2)
+	}
+	for _, i := range []int{1, 2} {
+		for j := 3; j < n; j++ {
+			if verifBool("edge") {
+				put(i, j)
+			}
+		}
+	}
+	var reach [n][n]bool
+	reach = adj
+	for k := 0; k < n; k++ {
+		for i := 0; i < n; i++ {
+			for j := 0; j < n; j++ {
+				if reach[i][k] && reach[k][j] {
+					reach[i][j] = true
+				}
+			}
+		}
+	}
+	fi, ti := verifLen("from", 0, n-1), verifLen("to", 0, n-1)
+	verifAssume(fi != ti)
+	err := d.DefineRelationship(ctx, ids[fi], verifParent, ids[ti])
+	verifObserveBool("err", err != nil)
+	switch {
+	case adj[fi][ti]:
+		verifAssert("branching-existing-is-noop", err == nil)
+	case reach[ti][fi]:
+		verifAssert("branching-cycle-rejected", err != nil && errors.Is(err, graph.ErrCyclicDependency))
+	default:
+		verifAssert("branching-acyclic-accepted", err == nil)
+	}
+	verifAssert("branching-edge-present-iff-accepted", verifHasEdge(d, ids[fi], ids[ti]) == (adj[fi][ti] || err == nil))
+	verifReach("end")
+}
